@@ -166,10 +166,16 @@ def _add_zids(zdir: Path, page: Page) -> None:
             _LOGGER.debug("Found new zorg note", zorg_note=note)
             zid = zid_manager.get_next(note.create_date)
             note.zid = zid
-            old_body = note.body.lstrip()
-            if zdt.is_long_date_spec(old_body.split(" ")[0]):
-                old_body = " ".join(old_body.split(" ")[1:])
-            note.body = f"{zid} {old_body}".rstrip()
+            # The ZID is added to the first line of the note's body (where it
+            # takes the place of a YYYY-MM-DD create date, if there is one).
+            first_line, newline, other_lines = note.body.lstrip().partition(
+                "\n"
+            )
+            words = first_line.split(" ")
+            if zdt.is_long_date_spec(words[0]):
+                words.pop(0)
+            first_line = f"{zid} {' '.join(words)}" if words else zid
+            note.body = first_line + newline + other_lines
             # A note that has no ZID yet cannot have a modify date spec (which
             # lives in front of the ZID) either.
             note.modify_date = note.create_date
